@@ -98,7 +98,7 @@ def stub_record(rid, rnd, special=None):
     from dissect.cstruct.tools.stubgen import generate_cstruct_stub
 
     while True:
-        decls, consts, mode = make_decls(rnd)
+        decls, consts, mode = make_decls(rnd, typedecl=False)
         if not any(d["kind"] in ("aliasarr", "aliasptr") for d in decls) or special == "typedef-array-or-pointer":
             break
     if special != "typedef-array-or-pointer":
